@@ -3,6 +3,7 @@ package fs
 import (
 	"archive/tar"
 	"bytes"
+	"context"
 	"database/sql"
 	"io"
 	"io/fs"
@@ -143,12 +144,22 @@ func (f *File) syncWithoutLocking() error {
 				modTime := f.info.ModTime()
 				accessTime := f.info.ModTime()
 				changeTime := f.info.ModTime()
+				mode := int64(f.info.Mode().Perm())
 				sys, ok := f.info.Sys().(*Stat)
 				if ok {
 					gid = int(sys.Gid)
 					uid = int(sys.Uid)
 					accessTime = time.Unix(0, sys.Atim.Nano())
 					changeTime = time.Unix(0, sys.Ctim.Nano())
+				}
+
+				// The attributes might have been changed (i.e. with `Chmod` or `Chown`) since the file has been opened; only the content is replaced, so keep the attributes that the file has now
+				if current, err := f.metadata.Metadata.GetHeader(context.Background(), f.path); err == nil && current.Typeflag == tar.TypeReg {
+					mode = int64(fs.FileMode(current.Mode).Perm())
+					uid = int(current.UID)
+					gid = int(current.Gid)
+					accessTime = current.Accesstime
+					changeTime = current.Changetime
 				}
 
 				// Only the size changes; update it in place, as methods look at `f.info` (i.e. `IsDir`) before they take the lock and must not race with a replacement of the info
@@ -168,7 +179,7 @@ func (f *File) syncWithoutLocking() error {
 						Typeflag:   tar.TypeReg,
 						Name:       f.info.Name(),
 						Size:       size,
-						Mode:       int64(f.info.Mode().Perm()),
+						Mode:       mode,
 						Uid:        uid,
 						Gid:        gid,
 						ModTime:    modTime,
